@@ -5,6 +5,7 @@
 package common
 
 //@ global zero != nil && val(zero) == 0 && one != nil && val(one) == 1 && two != nil && val(two) == 2
+//@ global common.Logger != nil
 
 // ----- int.go -----
 
